@@ -1,15 +1,25 @@
 //! Event sink for the conformance harness in /verif (compiled only with
 //! `--cfg rust_dsymbols_verif`; nothing in the library depends on it).
 
-use std::cell::RefCell;
+use std::cell::{Cell, RefCell};
 
 thread_local! {
     static EVENTS: RefCell<Vec<String>> = RefCell::new(Vec::new());
+    static RECORDING: Cell<bool> = Cell::new(false);
 }
 
-/// Appends one event (a JSON object as text) to the thread-local log.
-pub fn emit(event: String) {
-    EVENTS.with(|e| e.borrow_mut().push(event));
+/// Switches recording on or off for this thread (off by default, so that
+/// calls the harness does not want to observe cost nothing and keep nothing).
+pub fn record(on: bool) {
+    RECORDING.with(|r| r.set(on));
+}
+
+/// Appends one event (a JSON object as text) to the thread-local log if
+/// recording is on; the text is only built in that case.
+pub fn emit_with<F: FnOnce() -> String>(event: F) {
+    if RECORDING.with(|r| r.get()) {
+        EVENTS.with(|e| e.borrow_mut().push(event()));
+    }
 }
 
 /// Returns the events logged so far on this thread and clears the log.
